@@ -28,6 +28,11 @@ type clCfg struct {
 	Body        string `json:"body"`
 }
 
+type clResult struct {
+	Kind string `json:"kind"`
+	Err  string `json:"err"`
+}
+
 type clStep struct {
 	O    string   `json:"o"`
 	Body []string `json:"body"`
@@ -45,17 +50,15 @@ type clWait struct {
 }
 
 type clBeh struct {
-	Cfg    clCfg     `json:"cfg"`
-	Script []clStep  `json:"script"`
-	Reqs   []clReq   `json:"reqs"`
-	Events []stEvent `json:"events"`
-	Waits  []clWait  `json:"waits"`
-	Result struct {
-		Kind string `json:"kind"`
-		Err  string `json:"err"`
-	} `json:"result"`
-	Attempts    int `json:"attempts"`
-	MaxAttempts int `json:"maxAttempts"`
+	Cfg         clCfg      `json:"cfg"`
+	Script      []clStep   `json:"script"`
+	Reqs        []clReq    `json:"reqs"`
+	Events      []stEvent  `json:"events"`
+	Waits       []clWait   `json:"waits"`
+	Result      clResult   `json:"result"`
+	Results     []clResult `json:"results"` // what earlier Connect calls on the same Connection returned ("reconnect" steps)
+	Attempts    int        `json:"attempts"`
+	MaxAttempts int        `json:"maxAttempts"`
 }
 
 const (
@@ -94,6 +97,7 @@ type clObs struct {
 	waitErrs      []error
 	getBody       int
 	err           error
+	earlier       []error // results of earlier Connect calls on the same Connection
 	panicked      any
 	rejectedReads int
 }
@@ -128,10 +132,14 @@ func runClient(t *byteTable, b *clBeh, seg func(n int) []int) (o clObs) {
 
 	var steps []clStep
 	cancelWait := false
+	reconnects := 0
 	for _, s := range b.Script {
-		if s.O == "cancel_wait" {
+		switch s.O {
+		case "cancel_wait":
 			cancelWait = true
-		} else {
+		case "reconnect":
+			reconnects++
+		default:
 			steps = append(steps, s)
 		}
 	}
@@ -268,6 +276,11 @@ func runClient(t *byteTable, b *clBeh, seg func(n int) []int) (o clObs) {
 		}
 	})
 	o.err = cn.Connect()
+	for k := 0; k < reconnects && ctx.Err() == nil; k++ {
+		// the caller calls Connect again on the same Connection
+		o.earlier = append(o.earlier, o.err)
+		o.err = cn.Connect()
+	}
 	o.rejectedReads = rejectedReads
 	return
 }
@@ -326,31 +339,41 @@ func checkClient(res *Result, t *byteTable, b *clBeh, o clObs, f clFocus, segNam
 	}
 	cancelWait := len(b.Script) > 0 && b.Script[len(b.Script)-1].O == "cancel_wait"
 	if f.result {
-		if o.err == nil {
-			fail("client:result:nil", "Connect returned nil (spec: %s %s)", b.Result.Kind, b.Result.Err)
-		} else {
+		checkOne := func(err error, want clResult, which string, last bool) {
+			if err == nil {
+				fail("client:result:nil", "%sConnect returned nil (spec: %s %s)", which, want.Kind, want.Err)
+				return
+			}
 			var ce *sse.ConnectionError
-			isCE := errors.As(o.err, &ce)
+			isCE := errors.As(err, &ce)
 			ok := false
-			switch b.Result.Kind {
+			switch want.Kind {
 			case "ctx":
-				ok = errors.Is(o.err, context.Canceled)
+				ok = errors.Is(err, context.Canceled)
 			case "validator":
-				ok = isCE && (errors.Is(o.err, errReject) || errors.As(o.err, new(tempReject)))
+				ok = isCE && (errors.Is(err, errReject) || errors.As(err, new(tempReject)))
 			case "nogetbody":
-				ok = errors.Is(o.err, sse.ErrNoGetBody)
+				ok = errors.Is(err, sse.ErrNoGetBody)
 			case "getbodyerr":
-				ok = errors.Is(o.err, errGetBody)
+				ok = errors.Is(err, errGetBody)
 			case "exhausted":
-				ok = isCE && errClassOK(o.err, b.Result.Err)
-				if last := b.Script[len(b.Script)-1].End; !ok && len(b.Script) > 0 && (last == "cancel_eof" || last == "cancel_cb") {
-					ok = errors.Is(o.err, context.Canceled) // cancelled at the very end: either reason is acceptable
+				ok = isCE && errClassOK(err, want.Err)
+				if lastEnd := b.Script[len(b.Script)-1].End; !ok && last && (lastEnd == "cancel_eof" || lastEnd == "cancel_cb") {
+					ok = errors.Is(err, context.Canceled) // cancelled at the very end: either reason is acceptable
 				}
 			}
 			if !ok {
-				fail("client:result:"+b.Result.Kind+":"+b.Result.Err, "Connect returned %q, spec: %s %s", o.err, b.Result.Kind, b.Result.Err)
+				fail("client:result:"+want.Kind+":"+want.Err, "%sConnect returned %q, spec: %s %s", which, err, want.Kind, want.Err)
 			}
 		}
+		if len(o.earlier) != len(b.Results) {
+			fail("client:result:connects", "%d Connect calls returned before the last one, spec: %d", len(o.earlier), len(b.Results))
+		} else {
+			for i, e := range o.earlier {
+				checkOne(e, b.Results[i], fmt.Sprintf("call %d: ", i+1), false)
+			}
+		}
+		checkOne(o.err, b.Result, "", true)
 		if len(o.seen) != b.Attempts && !(cancelWait && len(o.seen) == b.Attempts+1) {
 			fail("client:attempts", "%d attempts were made, spec: %d", len(o.seen), b.Attempts)
 		}
